@@ -14,7 +14,7 @@ Open Scope list_scope.
 
 Lemma ztame_arg_plain a : ztame_arg a = true -> arg_plain tame_byte a = true.
 Proof.
-  unfold ztame_arg, tame_arg, arg_plain. rewrite !andb_true_iff. intros [[[[[A B] C] D] _] _]. repeat split; assumption.
+  unfold ztame_arg, tame_arg, arg_plain. rewrite !andb_true_iff. intros [[[[[[[A B] C] D] _] _] _] _]. repeat split; assumption.
 Qed.
 
 Lemma forallb_impl {A} (p q : A -> bool) l : (forall a, In a l -> p a = true -> q a = true) -> forallb p l = true -> forallb q l = true.
@@ -51,17 +51,17 @@ Qed.
 
 (** C17 for [generate_zsh] on the user's tree: any two assignments of description texts with the same presence shape give
     files with the same token skeleton and the same final lexer state *)
-Theorem generate_zsh_text_invariance bl c d1 d2 bin s1 :
+Theorem generate_zsh_text_invariance c d1 d2 bin s1 :
   ztame_cmd c = true -> tame bin = true -> FishLexProofs.erase_desc d1 = FishLexProofs.erase_desc d2 ->
-  generate_zsh bl c d1 bin = Some s1 ->
-  exists s2, generate_zsh bl c d2 bin = Some s2 /\
+  generate_zsh c d1 bin = Some s1 ->
+  exists s2, generate_zsh c d2 bin = Some s2 /\
     skeleton (events sh_step ZB s1) = skeleton (events sh_step ZB s2) /\
     final sh_step ZB s1 = final sh_step ZB s2.
 Proof.
   intros Hc Hbin He G1.
   destruct (build (set_bin_name c bin)) as [b|] eqn:Hb; [|unfold generate_zsh in G1; rewrite Hb in G1; discriminate].
-  rewrite (generate_zsh_is_built bl c d1 bin b Hb) in G1. rewrite (generate_zsh_is_built bl c d2 bin b Hb).
-  apply (zsh_text_invariance bl b (dbuild (set_bin_name c bin) d1) (dbuild (set_bin_name c bin) d2) s1 (build_ztame c bin b Hb Hc Hbin)); [|exact G1].
+  rewrite (generate_zsh_is_built c d1 bin b Hb) in G1. rewrite (generate_zsh_is_built c d2 bin b Hb).
+  apply (zsh_text_invariance b (dbuild (set_bin_name c bin) d1) (dbuild (set_bin_name c bin) d2) s1 (build_ztame c bin b Hb Hc Hbin)); [|exact G1].
   apply FishBuildProofs.dbuild_erase_congr. exact He.
 Qed.
 
